@@ -396,6 +396,46 @@ class Run:
                 raise MachineryError("driver failed on %s (rc=%s):\n%s" % (trace, rc, text[-1500:]))
             self.collect(engine, trace, text, eng)
 
+    def run_hintdiff(self, ncases, intensify=1):
+        """engine hintdiff (C02): the real store writes hint split files, a random subset of them is removed, the store
+        reopens; hint file contents and per-key tree items are compared with Model/HintIndex.lean (write path, kept
+        prefix + rescan, the tree a start builds, and the replay of the data log).  The harness emits the cases as Lean
+        data; the model is evaluated by `lake env lean`."""
+        hdir = os.path.join(VERIF, "harness")
+        binp = os.path.join(self.scratch, "hintdiff")
+        rc, o = sh(["go", "build", "-tags", "verif", "-o", binp, "./cmd/hintdiff"], cwd=hdir, env=GOENV, timeout=1800)
+        if rc != 0:
+            raise MachineryError("hintdiff does not build:\n" + o[-2000:])
+        n = ncases * intensify
+        cases = os.path.join(self.scratch, "HintDiffCases.lean")
+        rc, o = sh([binp, "-seed", str(self.seed * 1000003 + 77), "-n", str(n), "-out", cases], cwd=self.scratch, env=GOENV, timeout=1800)
+        if rc != 0:
+            raise MachineryError("hintdiff failed:\n" + o[-2000:])
+        body = open(os.path.join(hdir, "cmd", "hintdiff", "HintDiffCheck.lean")).read()
+        body = "\n".join(l for l in body.split("\n") if not l.startswith("import ") and not l.startswith("open Store HintIndex"))
+        comb = os.path.join(self.scratch, "HintDiffCombined.lean")
+        open(comb, "w").write(open(cases).read() + "\n" + body)
+        rc, o = sh(["lake", "env", "lean", comb], cwd=LEAN, timeout=3000)
+        m1 = re.search(r"(\d+) cases, (\d+) mismatching", o)
+        m2 = re.search(r"(\d+) dump cases, (\d+) mismatching", o)
+        if rc != 0 or not m1 or not m2:
+            raise MachineryError("hintdiff: the model could not be evaluated:\n" + o[-2000:])
+        eng = self.cov["engines"].setdefault("hintdiff", {"cases": 0, "checked": 0, "diffs": 0, "traces": 0})
+        eng["traces"] += 1
+        eng["cases"] += int(m1.group(1)) + int(m2.group(1))
+        eng["checked"] += int(m1.group(1)) + int(m2.group(1))
+        self.cov["evaluations"] += int(m1.group(1)) + int(m2.group(1))
+        self.cov["input_distribution"]["hintdiff.cases.remove-subset-of-idx.s"] = int(m1.group(1))
+        self.cov["input_distribution"]["hintdiff.cases.stale-tree-dump"] = int(m2.group(1))
+        for l in o.split("\n"):
+            if "MISMATCH" in l:
+                eng["diffs"] += 1
+                keep = os.path.join(VERIF, "replays", "%s-hintdiff-%d.lean" % (self.prop, self.seed))
+                os.makedirs(os.path.dirname(keep), exist_ok=True)
+                shutil.copyfile(comb, keep)
+                self.diffs.append({"engine": "hintdiff", "trace": keep, "line": 0, "kind": "model", "key": None, "case": l.split(":")[0],
+                                   "text": "DIFF kind=model hint files / tree of a start differ from Model/HintIndex: " + l[:300], "input": l[:300]})
+
     def collect(self, engine, trace, text, eng):
         lines = open(trace, errors="replace").read().split("\n")
         eng["traces"] += 1
@@ -591,11 +631,16 @@ class Run:
         # corpus first
         for engine_cfg in self.cfg.get("engines", []):
             engine = engine_cfg[0]
+            if engine == "hintdiff":
+                continue
             for cp in sorted(glob.glob(os.path.join(VERIF, "corpus", self.prop, engine + "-*.txt"))):
                 self.run_engine(engine, 1, 1, replay=cp)
         for engine_cfg in self.cfg.get("engines", []):
             engine, n, shards = engine_cfg[0], engine_cfg[tier_i], engine_cfg[3]
             extra = engine_cfg[4] if len(engine_cfg) > 4 else None
+            if engine == "hintdiff":
+                self.run_hintdiff(n, intensify=intensify)
+                continue
             self.run_engine(engine, n, shards, extra=extra, intensify=intensify)
         self.probe_broken_cases()
         rc, out = self.verdict()
